@@ -180,6 +180,13 @@ def dump_arms(ctx, binp):
                                  bases='spread over {2,8,10,16,36}', buffer_end='spread over 4 shapes')
     if not th:
         cases = random.Random(ctx.seed).sample(cases, 9000)
+    # the `until <last bit> (end) (<size>)` line of a truncated value is only judged when it fits its column: a second, small family with
+    # wide lines, values longer than a line and display_bytes 1 or L-1 (always truncated, mostly visible), every buffer-end shape, all replayed in both tiers
+    gu = ctx.tlc('DumpMC', 'gen_until.cfg', cfg_text=mc_cfg(starts=range(16), lens=range(130, 190), L=(9, 16), dsel=(2, 3), spread=True, invs=(), emit=True),
+                 timeout=900, name='gen_until_lines')
+    ctx.tlc_expect_ok(gu, 'DumpMC GEN until-lines')
+    ctx.cov['gen_family']['until_line_family'] = len(gu.printed)
+    cases = cases + gu.printed
     ctx.cov['gen_family']['replayed'] = len(cases)
     for k in range(0, len(cases), 40000):      # in portions: the thorough tier replays all 219k
         part = cases[k:k + 40000]
